@@ -41,8 +41,8 @@ CHECKS = {
    note="Re-added fields are unconstrained (the property does not speak to them). 'Processed before/after the alter' is exact because the driver quiesces before each alter and then sends a forced-flush request through the same row-store actor as a barrier (it does not wait on state).",
    ref="§3 C15"),
  "C06": dict(cat="exploration", tech="exhaustive small-scope enumeration of datasets × storage splits × clock positions × groupings × period multiples × field lists on real DBs with an anchoring-agnostic interval oracle",
-   text="Every dataset of the bound (all sets of up to 2/3 cells over 6 keys × 5 periods plus richer sets) × {memory, disk, split} × 4 clock positions × 5 groupings × 6 period multiples (incl. non-divisors and larger than the window) × 5 field lists is queried on a real DB; per key the returned intervals must be disjoint, every point inside the window covered exactly once, every row equal to the aggregate recomputed from the raw points of its interval, no row without points.",
-   note="Bucket anchoring, straddling periods and the planner's clamping of over-long periods are left open, as the property leaves them open; P is read from the plan. Values are distinct powers of two so sums identify the contributing points.",
+   text="Every dataset of the bound (all sets of up to 2/3 cells over 6 keys × 5 periods plus richer sets) × {memory, disk, split} × 4 clock positions × 5 groupings × 6 period multiples (incl. non-divisors and larger than the window) × 5 field lists (three of them also under an explicit ASOF 1.5 s and 2 s after the first period, so that data lies before the bound and the window is not a multiple of the period) is queried on a real DB; per key the returned intervals must be disjoint, every point inside the window covered exactly once, every row equal to the aggregate recomputed from the raw points of its interval, no row without points.",
+   note="Bucket anchoring and the planner's clamping of over-long periods are left open, as the property leaves them open; a row straddling a window edge may hold any subset of the points of its own interval that lie inside the requested range; P is read from the plan. Values are distinct powers of two so sums identify the contributing points.",
    ref="§3 C06"),
  "C07": dict(cat="exploration", tech="exhaustive enumeration of (asOf, until) pairs × groupings × datasets on real DBs with the interval oracle",
    text="Every (asOf, until) pair from a grid of absent / every boundary and mid-period instant around the data / relative offsets (421 pairs, empty and inverted ranges included) × 4 groupings × datasets × storage {memory, disk, split, altered: a field added in front of the others half-way, queried first} × 2 clock positions, plus the same grid applied to FROM-subqueries that carry absolute ranges of their own (compared with the direct query over the intersected range): every native period wholly inside the range is covered exactly once with recomputed values, nothing ends at or before asOf or begins at or after until, empty ranges yield an error or no rows, the default window brackets (now - retention, now].",
